@@ -186,6 +186,16 @@ CHECKS = {
             'Trusted: predicates evaluated by the recorder on the returned frames; byte digests identify draws. Mean / variance / standard '
             'deviation clauses are statistical and NOT decided by the model (6-sigma numeric leaf on 400x400 frames with fixed seeds).',
             'trace validation by TLC against a TLA+ specification of seeded randomness'),
+    'C19': ('model_checking',
+            'Blur.tla fixes, as exact rationals, the argument every frequency bin of an R x C image feeds to the leaf of each transfer '
+            'function (sinc x sinc, Gauss of sigma^2 rho^2, sinc along a rational direction); TLC checks unit gain at DC, Hermitian symmetry '
+            'except at the unpaired Nyquist bins it enumerates, unit equivalence and zero extent on every case and emits the grids. lentil\'s '
+            'pixel / jitter / smear are compared with the exact circular convolution on impulse responses at every position, plus shape, '
+            'non-negativity, translation invariance, totals, identity and unit equivalence, on square and non-square images of both parities.',
+            'DESIGN.md 5 C19',
+            'The leaf functions sinc and exp are evaluated by numpy at the arguments TLC emits (numeric leaf). Smear on even axes is compared '
+            'up to the contribution of the Nyquist bins.',
+            'symbolic transfer-function argument grids in TLA+ (TLC) as oracle for lentil'),
     'C20': ('model_checking',
             'Geometry.tla defines pad/crop (2-D and cubes), sub-array, bounding box, bounding slice with pad and clipping, slice '
             'offset, rebin, centroid (exact rational), mesh, the half-turn / mirror / translation index maps of drawn shapes and '
